@@ -36,6 +36,11 @@ PROP = {  # subject prefix -> (properties, what failed before the repair)
  "groupby_fast(...).cumcount() numbers": ("C17", "facade cumcount passed the values as mask= (rows with a zero/false value were not counted)"),
  "count(transform=True) on chunked keys": ("C03 C07", "count(transform=True) on chunk-factorized keys returned booleans instead of counts"),
  "the time-weighted ungrouped EMA starts": ("C10", "ema(values with a leading NaN, halflife=, times=) returned NaN for the whole series"),
+ "Arrow-backed keys and values that hold nulls": ("C03 C12", "pa.array / ChunkedArray keys or values with nulls or strings raised ArrowInvalid (zero_copy_only)"),
+ "Arrow-backed keys with nulls get": ("C02 C12", "Arrow-backed keys with a null raised numba TypingError (codes came back as float with NaN)"),
+ "monotonic-run detection skips empty": ("C02 C03", "a chunked key with an empty chunk produced garbage labels (read past the end of the empty chunk)"),
+ "pyarrow timestamp keys keep": ("C03 C12", "pyarrow timestamp ChunkedArray keys raised TypeError in monotonic factorization"),
+ "cumulative counts are int64": ("C03 C08", "cumcount on monotonic (uint32-coded) keys returned 2^64-1 instead of -1 at masked rows"),
  "apply returns an empty result": ("C05 C09", "median/apply with nothing selected raised IndexError (was known finding K2)"),
 }
 log = subprocess.run(["git", "-C", "/repo", "log", "--format=%h %s", "be63ad5..HEAD"], stdout=subprocess.PIPE).stdout.decode().splitlines()
